@@ -161,6 +161,8 @@ func (r Rec) createLeavesCols(m Mode, mode string, cols []string) []interface{} 
 		}
 		if i < len(r.F) && r.F[i] != nil {
 			out = append(out, r.F[i].Leaves()...)
+		} else if r.Table == "owners" && col.name == "age" {
+			out = append(out, int64(OwnerDefaultAge)) // Owner.BeforeCreate fills a missing age
 		} else if bindsZero(col.kind) {
 			out = append(out, zeroLeaf(col.kind))
 		}
@@ -743,6 +745,9 @@ func (w *walker) tmpl(t *Tmpl) {
 	if t.NoParen {
 		w.info.Classes["expr:noparen"] = true
 	}
+	if t.LitQ > 0 {
+		w.info.Classes["tmpl:literal-question-mark"] = true
+	}
 	for _, s := range t.Slots {
 		if s.Paren {
 			w.info.Classes["slot:paren"] = true
@@ -922,6 +927,14 @@ func recIDs(c *Chain) []int64 {
 		out = append(out, r.ID)
 	}
 	return out
+}
+
+// LiteralQ is the number of '?' characters of string literals that stay in the statement text.
+func (c *Chain) LiteralQ() int {
+	if c.Kind == "query" && c.Sel != nil && c.Fin != "count" {
+		return c.Sel.LitQ
+	}
+	return 0
 }
 
 // Describe walks the chain. literalLimit: LIMIT/OFFSET values are legitimately
